@@ -86,6 +86,14 @@ class PlanConfig:
             self.slowc_num = 5
             self.fault_num = 5
             self.src_fault_num = 2
+        if focus == "nullroot":
+            # non-null positions fail: late (asynchronously) at the root, so that the whole
+            # response is nulled after deferred work was started early, and synchronously below
+            # it, so that groups fail while their streamed lists are still being completed
+            self.async_num = 6
+            self.iter_num = 6
+            self.fault_num = 5
+            self.src_fault_num = 0
         if focus == "background":
             # many synchronous failures next to asynchronous siblings: chains of work that the
             # executor settles in the background (what the async_work_finished hook waits for)
@@ -139,7 +147,7 @@ class Planner:
                 fp.delivery = "slowc"  # catches cancellation, awaits a cleanup external, re-raises
             self.n_async += 1
         if (tp.draw(24, "f_fault") < cfg.fault_num
-                and (cfg.focus != "seriality" or is_non_null_type(t))):
+                and (cfg.focus not in ("seriality", "nullroot") or is_non_null_type(t))):
             # (seriality focus: only failures that propagate, i.e. on non-null positions)
             inner = t.of_type if is_non_null_type(t) else t
             kinds = ["raise", "ret_exc", "null", "raise"]
@@ -153,6 +161,9 @@ class Planner:
             if cfg.focus == "background":
                 fp.fault = "raise"
                 fp.delivery = "sync"
+            if cfg.focus == "nullroot":
+                fp.fault = "raise"
+                fp.delivery = "future" if len(path) <= 1 else ("sync", "sync", "future")[tp.draw(3, "f_nr")]
             fp.exc = tp.draw(len(EXC_KINDS), "f_exc")
             fp.msg = self._msg(fp.exc if fp.fault in ("raise", "ret_exc") else None)
             self._count("field:" + fp.fault)
